@@ -213,6 +213,7 @@ def make_body(inst, tier, path):
             obs["motif_id"] = list(out.motif_id)
             obs["joint_degrees"] = out.joint_degrees
             obs["jd_identity"] = out.joint_degrees is jds
+            obs["raw"] = out
         return obs
     return body, meta
 
@@ -220,7 +221,7 @@ def make_body(inst, tier, path):
 def sig(obs):
     if obs is None:
         return "None"
-    return repr({k: v for k, v in obs.items() if k != "jd_identity"})
+    return repr({k: v for k, v in obs.items() if k not in ("jd_identity", "raw")})
 
 
 def expected_counts(meta):
